@@ -336,6 +336,23 @@ def replay_file(mod, path, known_entries=None):
     return None
 
 
+
+def floor_count(floor, n):
+    """the number of cases of a class below which a run counts as STARVED (harness error, exit 2).
+    A floor is declared at about half of the share the class has when the generator works.  The share of a class
+    varies from seed to seed much more than binomial noise would (Hypothesis mutates and re-uses examples, so the
+    cases of a run are correlated; measured at seeds 1-7: up to a factor 2.5 for classes of a few dozen cases), and a
+    check that fails on the unchanged tree because of that is worse than none.  The run therefore counts a class as
+    starved when it has less than HALF the declared floor (about a quarter of its healthy share), and for classes
+    with a declared floor of fewer than 20 cases per run when it has less than a quarter of it (but at least one
+    case).  A generator that lost a class produces none, or next to none, and is still caught."""
+    want = floor * n
+    if want < 20:
+        return max(1.0 if want >= 2 else 0.0, 0.25 * want)
+    return 0.5 * want
+
+
+
 def run_property(mod, tier, seed, only_sub=None):
     t0 = time.time()
     pid = mod.PROPERTY
@@ -451,10 +468,10 @@ def run_property(mod, tier, seed, only_sub=None):
                     harness_errors.append('%s: no cases evaluated' % sub.name)
                 continue
             for lab, floor in sub.floors.items():
-                frac = m['labels'].get(lab, 0) / float(m['evaluations'])
-                if frac < floor:
-                    harness_errors.append('%s: class %r is %.3f of cases, floor %.3f'
-                                          % (sub.name, lab, frac, floor))
+                count, n = m['labels'].get(lab, 0), m['evaluations']
+                if count < floor_count(floor, n):
+                    harness_errors.append('%s: class %r is %.3f of cases (%d of %d), floor %.3f'
+                                          % (sub.name, lab, count / float(n), count, n, floor))
 
     wall = time.time() - t0
     write_evidence(mod, tier, seed, per_sub, violations, known_lines, n_replayed, wall, harness_errors)
